@@ -1,6 +1,7 @@
 package main
 
 import (
+	"strings"
 	"fmt"
 
 	"github.com/tidwall/geojson"
@@ -53,6 +54,34 @@ func c01Shape(s *exact.Shape, t Xf, probes []exact.P, fprobes []geometry.Point, 
 					return rt.Case{Kind: "member", Op: "geom", A: descShape(s, t), B: ptG(fp), Cfg: cfgName, X: t.x()},
 						fmt.Sprint(want), fmt.Sprintf("contains=%v intersects=%v", c, i)
 				})
+			}
+		}
+	}
+}
+
+// c01Moved: the shape built under each index configuration and then
+// translated through Move (exact offsets, one far beyond the shape's own
+// extent): membership of the translated probes must be that of the original.
+var c01MoveDeltas = [][2]float64{{1000, -500.5}, {-3.5, 0}, {0, 70}}
+
+func c01Moved(s *exact.Shape, probes []exact.P, fprobes []geometry.Point, cfgs []idxCfg, w *rt.Worker) {
+	for _, cfg := range cfgs {
+		g0 := geomOf(s, ident, cfg.Opts)
+		for di, d := range c01MoveDeltas {
+			g := moveGeom(g0, d[0], d[1])
+			w.States++
+			for j, p := range probes {
+				want := s.Member(p.R())
+				fp := geometry.Point{X: fprobes[j].X + d[0], Y: fprobes[j].Y + d[1]}
+				c, i := memberGeom(g, fp)
+				w.Evals += 2
+				if c != want || i != want {
+					cfgName, di, j := cfg.Name, di, j
+					w.Fail("member-moved-"+s.Kind.String(), func() (rt.Case, string, string) {
+						return rt.Case{Kind: "member", Op: fmt.Sprintf("moved%d", di), A: descShape(s, ident), B: ptG(fprobes[j]), Cfg: cfgName},
+							fmt.Sprint(want), fmt.Sprintf("contains=%v intersects=%v", c, i)
+					})
+				}
 			}
 		}
 	}
@@ -272,6 +301,7 @@ func runC01(r *rt.Run) {
 			w.Trans += int64(len(shapes[i].E.Skeleton()))
 			c01Shape(shapes[i].E, ident, probes, fp, idxCfgs, w, false)
 			c01Object(shapes[i].E, ident, probes, fp, idxCfgs[3], w)
+			c01Moved(shapes[i].E, probes, fp, idxCfgs[1:], w)
 		})
 	}
 	// two holes: every triangle over the 3x3 sub-lattice x a second hole from
@@ -294,7 +324,7 @@ func runC01(r *rt.Run) {
 	})
 
 	// scaled / translated copies of the depth-4 ring tree (float exactness at 2^20)
-	xfs := []Xf{{Scale: 131072}, {Scale: 0.5, Tx: 1048570, Ty: -1048570}, {Scale: 1.0 / 1024, Tx: 0, Ty: 0}}
+	xfs := []Xf{{Scale: 131072}, {Scale: 0.5, Tx: 1048570, Ty: -1048570}, {Scale: 1.0 / 1024, Tx: 0, Ty: 0}, {Scale: 1.0 / (1 << 30)}}
 	for _, t := range xfs {
 		t := t
 		fH := t.pts(H4)
@@ -305,7 +335,7 @@ func runC01(r *rt.Run) {
 			})
 		})
 	}
-	r.Bounds["transforms"] = []string{ident.String(), xfs[0].String(), xfs[1].String(), xfs[2].String()}
+	r.Bounds["transforms"] = []string{ident.String(), xfs[0].String(), xfs[1].String(), xfs[2].String(), xfs[3].String()}
 
 	// oracle self-check: parity == winding on simple rings (cheap, every run)
 	rings := lat.SimpleRings(lat.Lattice(3, -1), 5)
@@ -336,6 +366,20 @@ func evalC01(c *rt.Case) (bool, string, string, error) {
 	want := es.Member(ep.Pt.R())
 	fp := g2(c.B.P)[0]
 	cfg := cfgByName(c.Cfg)
+	if strings.HasPrefix(c.Op, "moved") {
+		var di int
+		fmt.Sscanf(c.Op, "moved%d", &di)
+		if di < 0 || di >= len(c01MoveDeltas) {
+			return false, "", "", fmt.Errorf("bad offset index")
+		}
+		g, err := buildGeom(c.A, cfg)
+		if err != nil {
+			return false, "", "", err
+		}
+		d := c01MoveDeltas[di]
+		ct, it := memberGeom(moveGeom(g, d[0], d[1]), geometry.Point{X: fp.X + d[0], Y: fp.Y + d[1]})
+		return ct != want || it != want, fmt.Sprint(want), fmt.Sprintf("contains=%v intersects=%v", ct, it), nil
+	}
 	if c.Op == "geom" {
 		g, err := buildGeom(c.A, cfg)
 		if err != nil {
